@@ -245,6 +245,21 @@ impl RoutingTable {
     }
 }
 
+#[cfg(mainline_verif)]
+impl RoutingTable {
+    /// dht_size_estimates_count, dht_size_estimates_sum, responders_samples_count,
+    /// responders_size_estimates_sum, responders_subnets_sum
+    pub(crate) fn verif_stats(&self) -> (usize, f64, usize, f64, usize) {
+        (
+            self.dht_size_estimates_count,
+            self.dht_size_estimates_sum,
+            self.responders_samples_count,
+            self.responders_size_estimates_sum,
+            self.responders_subnets_sum,
+        )
+    }
+}
+
 pub struct RoutingTableIterator<'a> {
     bucket_index: u8,
     node_index: usize,
